@@ -127,6 +127,27 @@ structure DelegCall where
   await : Bool
   deriving DecidableEq, Repr, Inhabited
 
+def identArgs (names : List String) : Toks := joinSep [p ','] (names.map fun a => [i a])
+
+/-- the documented forwarding expression of a delegating `Impl<T>` method -/
+def specDelegBody (shape : DelegShape) (f : String) (args : List String) (aw : Bool) : Toks :=
+  (match shape with
+   | .bySelf => [i "self", p '.', i "as_ref", parens [], p '.', i f, parens (identArgs args)]
+   | .byRef false =>
+       [i "self", p '.', i "as_ref", parens [], p '.', i "as_ref", parens [], p '.', i f, parens (identArgs args)]
+   | .byRef true =>
+       [i "self", p '.', i "as_ref", parens [], p '.', i "borrow", parens [], p '.', i f, parens (identArgs args)]
+   | .staticTarget it =>
+       [p '<', i "EntraitT"] ++ pathSep ++ [i "Target", i "as", i it, p '<', i "EntraitT", p '>', p '>'] ++ pathSep ++
+       [i f, parens ([i "self", p ','] ++ identArgs args)]
+   | .dynTarget it borrow sync =>
+       [p '<', i "EntraitT", i "as"] ++ (if borrow then borrowPath else asRefPath) ++
+       [p '<', i "dyn", i it, p '<', i "EntraitT", p '>'] ++ (if sync then p '+' :: syncToks else []) ++
+       [p '>', p '>'] ++ pathSep ++
+       [i (if borrow then "borrow" else "as_ref"), parens [p '&', p '*', i "self"], p '.', i f,
+        parens ([i "self", p ','] ++ identArgs args)]) ++
+  (if aw then [p '.', i "await"] else [])
+
 def parseDeleg (ts : Toks) : Option DelegCall :=
   let selfAsRef : Toks := [i "self", p '.', i "as_ref", parens [], p '.']
   match stripPrefix selfAsRef ts with
@@ -615,7 +636,8 @@ def P_C05 (v : Variant) (attr : Toks) (item : Item) (view : View) : Bool :=
         | .typed _ _ ty :: _, some t, some im =>
             t.attrs.count entraitForTraitAttr == 1 &&
             im.selfTy == ty.stripRefs.print &&
-            !im.params.any (fun q => q.name == entraitT) &&
+            -- not a blanket impl: parameterised only by the function's own lifted generics
+            im.params == liftedParams false f.sig &&
             wherePredsOk selfTy_ [] f.sig.generics.preds im.preds
         | _, _, _ => false
   | _ => true
@@ -650,12 +672,10 @@ def forwardsAll (a : TraitAttr) (t : TraitItem) (im : GenImpl) : Bool :=
     match g with
     | .fn _ sig (some body) =>
         sigSameModuloNames src.sig sig &&
-        (match parseDeleg body with
-         | some c => c.shape == expectedShape a t.containsAsync && c.callee == src.sig.ident &&
-                     -- the same `&Impl<T>` is handed on as the implementation block's dependency
-                     c.args == (if a.implTrait.isSome then ["self"] else []) ++ paramIdents sig.inputs &&
-                     c.await == src.sig.async_
-         | none => false)
+        -- the forwarding expression of the selected shape: the provider's method of the same name,
+        -- (for delegation targets: the same `&Impl<T>` as dependency,) the method's own parameter
+        -- identifiers in order, awaited iff async
+        body == specDelegBody (expectedShape a t.containsAsync) src.sig.ident (paramIdents sig.inputs) src.sig.async_
     | _ => false) t.fns im.members
 
 def implHeaderOk (t : TraitItem) (im : GenImpl) : Bool :=
@@ -961,7 +981,16 @@ def P_C19 (attr : Toks) (item : Item) (view : View) : Bool :=
      | _, _ => true) &&
     -- delegating bodies are of the recognised shapes, which name everything absolutely
     im.members.all (fun m => match m with
-      | .fn _ _ (some b) => if item.mode == .trait then (parseDeleg b).isSome else (parseCall b).isSome
+      | .fn _ sig (some b) =>
+          if item.mode == .trait then
+            (match parseTraitAttr attr with
+             | .ok a => [DelegShape.bySelf, .byRef false, .byRef true,
+                         .staticTarget ((a.implTrait.map (·.2)).getD ""), .dynTarget ((a.implTrait.map (·.2)).getD "") false false,
+                         .dynTarget ((a.implTrait.map (·.2)).getD "") false true, .dynTarget ((a.implTrait.map (·.2)).getD "") true false,
+                         .dynTarget ((a.implTrait.map (·.2)).getD "") true true].any
+                        (fun sh => [true, false].any (fun aw => b == specDelegBody sh sig.ident (paramIdents sig.inputs) aw))
+             | .error _ => false)
+          else (parseCall b).isSome
       | _ => true)) &&
   (traitsOf view.items).all (fun t =>
     -- a return type the macro rewrote is the absolute `impl ::core::future::Future<..>` form
